@@ -145,7 +145,8 @@ ERR_RE = re.compile(r'\((err|panic) "(?:[^"\\]|\\.)*"\)')
 def parse_res(line):
     """(res ID (trace ...) (ok) (pkg ..) (imports ..) (tree ..)) -> dict"""
     sx = parse_sx(ERR_RE.sub(r"(\1)", line))
-    d = {"id": sx[1], "trace": sx_field(sx[2:], "trace") or [], "status": "ok"}
+    d = {"id": sx[1], "trace": sx_field(sx[2:], "trace") or [], "status": "ok",
+         "touched": [int(x) for x in (sx_field(sx[2:], "touched") or [])]}
     if sx_field(sx[2:], "err") is not None:
         d["status"] = "err"
     elif sx_field(sx[2:], "panic") is not None:
@@ -507,9 +508,11 @@ def compare_run(root, opts, infos, pred, obs):
             probs[which].append(f"{rel}: modified on disk (content changed={a[rel][0]!=b[rel][0]}, mtime changed={a[rel][2]!=b[rel][2]}, inode changed={a[rel][3]!=b[rel][3]}) although no write is expected")
         elif a[rel][0] != writes[absn].encode("utf-8", "surrogateescape"):
             probs["write"].append(f"{rel}: bytes on disk differ from the bytes printed by --print-only for the same input")
-    # stdout
-    exp_chunks = [o for o in pred["outs"] if o[0] == "o"]
+    # stdout. The verbose "failed" lines carry the text of an external error (and imports.Process failures
+    # are not logged at all): they are removed from both sides; failures are compared through exit status and stderr.
+    exp_chunks = [o for o in pred["outs"] if o[0] == "o" and not re.fullmatch(r"/[^\n]*: failed\n", o[1])]
     so = obs["stdout"].decode("utf-8", "surrogateescape")
+    so = re.sub(r"(?m)^/[^\n]*?\.go: failed: [^\n]*\n", "", so)
     if "diff" in opts:
         # walk through stdout following the predicted sequence: plain chunks (echoed unmatched files with
         # --print-only, verbose log lines) must be there verbatim; a diff chunk extends to the next plain chunk
@@ -2188,6 +2191,14 @@ def c17(ctx):
     with ThreadPoolExecutor(max_workers=16) as ex:
         runs = list(ex.map(one, jobs))
     c17_intervals_tie(ctx, jobs)
+    # which declarations contain a site (also a site rewritten to identical syntax): from the Lean engine model
+    touched = {}
+    dd = ctx.scratch("c17dec")
+    with open(os.path.join(dd, "in.jsonl"), "w") as f:
+        for cid, patches, src in jobs:
+            f.write(json.dumps({"id": cid, "patches": patches, "src": src}) + "\n")
+    for inp, orig, impl, model, same in run_engine_batch(ctx, ["-inputs", os.path.join(dd, "in.jsonl")], "c17dec"):
+        touched[inp["id"]] = model.get("touched", [])
     d = ctx.scratch("cc")
     pth = os.path.join(d, "in.jsonl")
     meta = {}
@@ -2197,7 +2208,10 @@ def c17(ctx):
             if code != 0 or not patched:
                 ctx.count("unpatched")
                 continue
-            f.write(json.dumps({"id": cid, "orig": src, "out": body}) + "\n")
+            if cid not in touched:
+                ctx.count("no_model_answer")
+                continue
+            f.write(json.dumps({"id": cid, "orig": src, "out": body, "touched": touched[cid]}) + "\n")
             meta[cid] = (patches, src, body)
     r = run([ctx.harness, "commentcheck", "-inputs", pth])
     if r.returncode != 0:
